@@ -214,3 +214,40 @@ CHECKS["C18"] = {
          "float formatting are exercised, not modelled.",
  "technique": "model tables regenerated from source + machine-checked proof in Coq + correspondence check",
 }
+
+# ---- additions after the independent audits (DESIGN section 13) ------------------------------------------------------------
+_ADDENDA = {
+ "C03": "  Since the audit the main theorem names its second restriction: the two runs' secret payloads have the same SHAPE "
+        "(C03_noninterference_shape_refuted: keys of a secret object show through a public object merged over it - known finding "
+        "C03-secret-shape, reproduced on the implementation); the two-run oracle also varies shapes; renderings go through the CLI's own "
+        "PrepareEnvironment (plain, dotenv, shell).",
+ "C05": "  The load clause is refuted for FAILING imports (C05_load_at_most_once_refuted; known finding C05-failed-load-retried, a small "
+        "repair exists) and proved for successful ones; the oracle checks load-at-most-once on the implementation's log for all loads; the "
+        "number of error diagnostics is compared with the model's.",
+ "C11": "  Flip guarantees are about bits of the binary envelope before base64; at the level of the stored base64 text one flipped bit can "
+        "be accepted (C11_text_one_flip_refuted, known finding C11-text-flips) and what does hold there is proved "
+        "(C11_text_one_char_replaced, C11_text_char_outside_alphabet, C11_two_adjacent_bytes_rejected).  Every text also goes through "
+        "DecryptSecrets and fn::secret with a recording decrypter: error class, diagnostics count and every payload handed over are judged; "
+        "payloads up to 128 KiB; the wrap side through EncryptSecrets.",
+ "C13": "  Lines of every length are compared (run_fast = run proved); whole `esc run` commands are judged for every scalar secret leaf; the "
+        "second exclusion of the no-leak theorem is the exact class ph_clash (a secret spellable with placeholder text), with a refutation; the "
+        "whole-command theorem is over the Write/Close state machine for every chunking and every way the child ends.",
+ "C14": "  The model and the scripted backend include faults: a PATCH committed whose reply is lost or 5xx, a 400 with diagnostics, the "
+        "interactive edit's retry rounds, edit --show-secrets; no_lost_update is proved for every schedule with every fault placement; oracle "
+        "clauses (a)-(d) are evaluated on the backend's log; known finding C14-diag-exit0.",
+ "C15": "  Since the audit the edit is modelled on the `values` node as the code does it, `printable` also constrains key comments, the real "
+        "`env get` is part of the oracle, `--secret` values are encrypted as a backend does and opened, sizes up to 1000 entries / 70 000 bytes "
+        "and head / line / foot comments on every node position are generated, texts are compared token-wise.",
+ "C20": "  Cross-operation addressing: C20_target_injective_across_ops_refuted / _partial (known finding C20-route-words); request identity "
+        "covers verb, target, credentials, tag header and body leaves; bounds for reused connections; the model's out-of-fuel and panic branches "
+        "are proved unreachable.",
+ "C06": "  The model's schemas are compared with the implementation's outside the decidable class hist_class (Go's mutable per-value schema "
+        "makes the result depend on the re-merge history there).",
+ "C07": "  The model follows the implementation's silent rejection of unknown values whose schema is `false` (C07 failure-path theorems are "
+        "restated as _refuted + _partial with the class never_arg); every collaborator call position is faulted; the number of error "
+        "diagnostics is compared with the model's.",
+ "C08": "  Values also reach the gate by reference to an object merged from three layers (found and repaired: const/enum vs merged objects, "
+        "c0963c8); numeric keyword combinations and $ref chains with sibling keywords are enumerated.",
+}
+for _k, _t in _ADDENDA.items():
+    CHECKS[_k]["text"] = CHECKS[_k]["text"] + _t
